@@ -47,7 +47,7 @@ def expect_load(op, ea):
 
 def run(ck, binp, seed, tier, viol):
     rc, out = sh([binp, "-mode", "top4g", "-seed", str(seed)], timeout=900)
-    cases = [json.loads(l) for l in out.split("\n") if l.startswith('{"k":"top4g"')]
+    cases = jlines(out, '{"k":"top4g"')
     dist = {"calls": len(cases), "in_bounds": 0, "out_of_bounds": 0, "at_last_position": 0, "ea_beyond_32_bits": 0, "ops": {}}
     if rc != 0 or not cases:
         viol("process-fault", {"kind": "process-fault", "stream": "top4g"}, {"rc": rc, "tail": out[-2000:]})
